@@ -145,8 +145,8 @@ func Load(deep bool, overlay map[string][]byte, pats ...string) (*World, error) 
 					skip = true
 				}
 			}
-			if skip {
-				continue
+			if skip || len(p.GoFiles)+len(p.CompiledGoFiles) == 0 {
+				continue // allow-listed, or a directory that only holds _test.go files
 			}
 			return nil, fmt.Errorf("package %s loaded without syntax", p.PkgPath)
 		}
